@@ -88,7 +88,7 @@ Lemma gops_ok_in_range : forall g number nu nv nw, gops_ok g = true -> nu > 0 ->
   in_range3 nu nv nw (gapply o (u, v, w)).
 Proof.
   intros g number nu nv nw Hok Hnu Hnv Hnw Hchk o Hin u v w Hu Hv Hw.
-  unfold scaled_ops_except_id in Hin. destruct (number =? 1); [destruct Hin|].
+  unfold scaled_ops_except_id in Hin. destruct ((number =? 1) && Nat.eqb (length (cen_ops g)) 1); [destruct Hin|].
   apply in_map_iff in Hin. destruct Hin as [o0 [Ho Hin]]. apply filter_In in Hin. destruct Hin as [Hin _].
   unfold gops_ok in Hok. rewrite forallb_forall in Hok. specialize (Hok o0 Hin).
   destruct (check_related g nu nv nw Hchk) as [R10 [R20 R21]].
